@@ -7,7 +7,7 @@ namespace vf {
 
 const char* property_id() { return "C02"; }
 unsigned case_timeout_s() { return 300; }
-uint64_t num_cases(bool thorough) { return thorough ? 12000 : 1200; }
+uint64_t num_cases(bool thorough) { return thorough ? 16000 : 1200; }
 void final_report() {}
 
 void run_case(uint64_t idx, Rng& r) {
